@@ -317,6 +317,41 @@ def contour_ops(rng, nseg, closed, lat=8, curve_p=0.7):
     return ops
 
 
+def mixed_contour_ops(rng, nseg, closed, lat=8):
+    """Contours that alternate "wild" cubics (no single quadratic fits: kept as cubics when all_quadratic=False) with
+    degree-elevated quadratics (a single quadratic fits exactly) and lines: with all_quadratic=False the pen switches
+    between passing a cubic through and converting the next one, so its notion of the current point matters."""
+    cur = (rng.randint(-lat, lat), rng.randint(-lat, lat))
+    ops = [("moveTo", (cur,))]
+    prev = cur  # where the previous segment started (a pen with a stale current point would still be there)
+    for _ in range(nseg):
+        kind = rng.choice(["wild", "elevated", "elevated", "elevated-from-previous-start", "line"])
+        if kind == "wild":
+            a = (cur[0] + rng.choice([-9, 9, 12]), cur[1] + rng.choice([-12, 10]))
+            b = (cur[0] + rng.choice([-12, 11]), cur[1] + rng.choice([9, -9]))
+            e = (cur[0] + rng.choice([-14, -2, 2, 15]), cur[1] + rng.choice([-13, -1, 2, 16]))
+            ops.append(("curveTo", (a, b, e)))
+            prev, cur = cur, e
+        elif kind.startswith("elevated"):
+            base = prev if kind != "elevated" else cur  # exact quadratic as seen from `base`
+            d1 = (rng.randint(-4, 4), rng.randint(-4, 4))
+            d2 = (rng.randint(-4, 4), rng.randint(-4, 4))
+            prev = cur
+            cur = base
+            q1 = (cur[0] + 3 * d1[0], cur[1] + 3 * d1[1])
+            q2 = (q1[0] + 3 * d2[0], q1[1] + 3 * d2[1])
+            c1 = (cur[0] + 2 * d1[0], cur[1] + 2 * d1[1])
+            c2 = (q2[0] - 2 * d2[0], q2[1] - 2 * d2[1])
+            ops.append(("curveTo", (c1, c2, q2)))
+            cur = q2
+        else:
+            prev = cur
+            cur = (cur[0] + rng.randint(-6, 6), cur[1] + rng.randint(-6, 6))
+            ops.append(("lineTo", (cur,)))
+    ops.append(("closePath", ()) if closed else ("endPath", ()))
+    return ops
+
+
 def play(ops, pen):
     for op, args in ops:
         getattr(pen, op)(*args)
@@ -404,7 +439,10 @@ def drive_pens(rec, chk, count):
         tol = rng.choice(TOLS)
         aq = rng.random() < 0.7
         closed = rng.random() < 0.6
-        ops = contour_ops(rng, rng.randint(1, 4), closed)
+        if it % 2:
+            ops = mixed_contour_ops(rng, rng.randint(2, 5), closed)
+        else:
+            ops = contour_ops(rng, rng.randint(1, 4), closed)
         meta = {"fn": "pen", "ops": ops, "tols": [tol], "aq": aq}
         # segment pen
         r = RecordingPen()
@@ -725,7 +763,7 @@ def build_cases(chk, rec):
     chk.log("random + error path done, %d cases so far" % len(rec.traces))
 
     # ---- pens, glyphs, reverse direction ----------------------------------------
-    drive_pens(rec, chk, 1000 if thorough else 200)
+    drive_pens(rec, chk, 1500 if thorough else 400)
     drive_glyphs(rec, chk, 1200 if thorough else 150)
     drive_qu2cu(rec, chk, cu2qu, 3000 if thorough else 360)
     chk.log("pens/glyphs/qu2cu done, %d cases" % len(rec.traces))
